@@ -225,7 +225,7 @@ pub fn gen_slot(r: &mut Rng, mode: Mode) -> SlotCfg {
             for d in data.iter_mut() {
                 *d = (*d * 10.0).round();
             }
-        } else if r.chance(1, 30) && total > 0 {
+        } else if r.chance(1, 30) && total > 0 && kind != Kind::Spline {
             // a non-finite data value somewhere (legal data; results are NaN/inf around it)
             let i = r.below(total);
             data[i] = *r.pick(&[f64::NAN, f64::INFINITY, f64::NEG_INFINITY]);
@@ -251,6 +251,10 @@ pub fn gen_slot(r: &mut Rng, mode: Mode) -> SlotCfg {
         } else {
             Bc::NotAKnot
         };
+        if kind == Kind::Spline && bc != Bc::Periodic && r.chance(1, 30) && total > 0 {
+            let i = r.below(total);
+            data[i] = *r.pick(&[f64::NAN, f64::INFINITY, f64::NEG_INFINITY]);
+        }
         if bc == Bc::Periodic {
             // first and last row must be equal
             for l in 0..lanes {
@@ -283,6 +287,7 @@ pub fn gen_slot(r: &mut Rng, mode: Mode) -> SlotCfg {
                 _ => [Lay::C, Lay::F, Lay::Window, Lay::Step2, Lay::Rev][r.weighted(&[5, 1, 1, 1, 1])],
             },
             x_lay: if storage == Storage::View { [Lay::C, Lay::Step2, Lay::Rev][r.weighted(&[6, 1, 1])] } else { Lay::C },
+            build_order: [0u8, 1, 2, 3][r.weighted(&[5, 2, 2, 1])],
         };
     }
 }
